@@ -39,16 +39,20 @@ def build_harness():
     return time.time() - t0
 
 
-def axv(args, timeout=600, check=True, env=None, stdin=None):
+def axv(args, timeout=600, check=True, env=None, stdin=None, mem_limit=None):
     """Runs the harness binary; returns (returncode, stdout)."""
     e = dict(os.environ)
     e.setdefault("RUST_BACKTRACE", "0")
     e.setdefault("AXV_KNOWN_PANICS", known_panics_file())
     if env:
         e.update(env)
+    pre = None
+    if mem_limit:
+        import resource
+        pre = lambda: resource.setrlimit(resource.RLIMIT_AS, (mem_limit, mem_limit))
     try:
         p = subprocess.run([AXV] + [str(a) for a in args], stdout=subprocess.PIPE, stderr=subprocess.PIPE,
-                           text=True, timeout=timeout, env=e, input=stdin)
+                           text=True, timeout=timeout, env=e, input=stdin, preexec_fn=pre)
     except subprocess.TimeoutExpired:
         raise ToolError("harness timed out: axv " + " ".join(map(str, args)))
     if check and p.returncode != 0:
